@@ -28,12 +28,17 @@ follows a key-frame slice packet with the same timestamp continues that key fram
 treats it as an ordinary packet of the GOP (it does not restart the GOP and is not reported as a
 key-frame start).  `effKind` is the kind the cache acts on, given the run left by the history. -/
 
-/-- the key run after a packet: a key slice opens (or continues) a run with its timestamp, any
-    other slice packet ends it, packets that are not slices leave it alone -/
+/-- a later (non-start) fragment of a fragmented key-frame slice -/
+def isKeyFragment (k : NalConsts) (hevc : Bool) (p : Pkt) : Bool :=
+  if hevc then keyFragment265 k p.payload else keyFragment264 k p.payload
+
+/-- the key run after a packet: a key slice opens (or continues) a run with its timestamp; a later
+    fragment of a key slice with the run's timestamp keeps it; any other slice packet ends it;
+    packets that are not slices leave it alone -/
 def nextRun (k : NalConsts) (hevc : Bool) (run : Option Nat) (p : Pkt) : Option Nat :=
   match pktKind k hevc p with
   | .key => some p.ts
-  | .other => none
+  | .other => if run == some p.ts && isKeyFragment k hevc p then run else none
   | _ => run
 
 /-- the kind the cache acts on -/
